@@ -344,9 +344,25 @@ structure RoomsGrid (h w : Nat) (ys xs : List Int) (g : Grid) : Prop where
     (q.y ∉ ys ∧ q.x ∉ xs) ∨ (q.y ∈ inner ys ∧ ∃ pr ∈ pairwise xs, pr.1 < q.x ∧ q.x < pr.2) ∨
     (q.x ∈ inner xs ∧ ∃ pr ∈ pairwise ys, pr.1 < q.y ∧ q.y < pr.2)
 
+/-- the code's check (`np.any(np.diff(l) < 2)`) is exactly the negation of `Gapped` -/
+theorem tooClose_eq_false_iff (l : List Int) : tooClose l = false ↔ Gapped l := by
+  induction l with
+  | nil => simp [tooClose, Gapped]
+  | cons a rest ih =>
+    cases rest with
+    | nil => simp [tooClose, Gapped]
+    | cons b rest' =>
+      simp only [tooClose, Gapped, Bool.or_eq_false_iff, decide_eq_false_iff_not, ih]
+      constructor
+      · rintro ⟨h, g⟩; exact ⟨by omega, g⟩
+      · rintro ⟨h, g⟩; exact ⟨by omega, g⟩
+
+theorem SplitsOK.notTooClose {n : Int} {l : List Int} (s : SplitsOK n l) : tooClose l = false :=
+  (tooClose_eq_false_iff l).mpr s.gapped
+
 theorem roomsGrid_spec (sh : Shape) (lh lw : Int) (ys xs : List Int) (d : DrawSt)
     (hh : 0 ≤ sh.h) (hw : 0 ≤ sh.w) (hl : 1 ≤ lh ∧ 1 ≤ lw)
-    (sy : SplitsOK sh.h ys) (sx : SplitsOK sh.w xs) (dy : hasDup ys = false) (dx : hasDup xs = false) :
+    (sy : SplitsOK sh.h ys) (sx : SplitsOK sh.w xs) :
     ∃ g d', roomsGrid sh lh lw ys xs d = .ok (g, d') ∧ RoomsGrid sh.h.toNat sh.w.toNat ys xs g := by
   have ehh : ((sh.h.toNat : Nat) : Int) = sh.h := by omega
   have eww : ((sh.w.toNat : Nat) : Int) = sh.w := by omega
@@ -395,7 +411,7 @@ theorem roomsGrid_spec (sh : Shape) (lh lw : Int) (ys xs : List Int) (d : DrawSt
       exact hc2 _ (by simp only; omega) (by simp only; omega) bx1.1 bx1.2)
   have hcond : (decide (lh < 1) || decide (lw < 1)) = false := by simp; omega
   refine ⟨g3, d3, ?_, wf3, by rw [gh3, gh2, gh1], by rw [gw3, gw2, gw1], ?_, ?_, ?_, ?_, ?_⟩
-  · simp only [roomsGrid, hcond, dy, dx, Bool.false_eq_true, if_false, e1, drawPassages]
+  · simp only [roomsGrid, hcond, sy.notTooClose, sx.notTooClose, Bool.false_eq_true, if_false, e1, drawPassages]
     simp only [inner] at e2 e3
     rw [e2]
     exact e3
